@@ -117,7 +117,44 @@ def run_generated(prop, seed, run, tier, known=None, fault_plan=None):
     if fault_plan is None and rng.random() < profile.get('p_alias', 0.12):
         record['alias'] = alias_spec(rng, subs, events)
         alias_session(rep, record, b, known)
+    if fault_plan is None and rng.random() < profile.get('p_blind', 0.08):
+        record['blind'] = True
+        blind_session(rep, record, b, known)
     return record, b
+
+
+def blind_session(rep, record, b, known):
+    """The same script without anybody looking: no observer is ever called, no slice is read before it is used, caches are never
+    cleared by hand.  Looking at a value must not change what later operations do with it, so every value ever produced is the same."""
+    import copy
+    ev4 = copy.deepcopy(record['events'])
+    for ev in ev4:
+        ev.pop('read', None)
+        ev.pop('cc', None)
+    b4 = Bench(rep, record['subs'], known=known, cache_policy='never', obs=False)
+    for ev in ev4:
+        b4.step(ev)
+    b.stats['probe:blind_session'] += 1
+    charge = {'transfer': ('C01', 'C02', 'C07'), 'remove': ('C17',), 'fill_to': ('C11',), 'dilute': ('C11',)}
+    for i, (x, y) in enumerate(zip(b.log, b4.log)):
+        if x.get('out') != y.get('out'):
+            b.idx = i
+            for prop in charge.get(x.get('op'), ('C10',)) + ('C04',):
+                b.V(prop, 'depends_on_being_observed', (x.get('op'), 'outcome'),
+                    f"event {i} ({x.get('op')}) -> {x.get('out')}; in the same script without observer calls and slice reads -> {y.get('out')}")
+            return
+    W, W4 = b.world, b4.world
+    for (name, v), idx in sorted(W.created.items(), key=lambda kv: kv[1]):
+        if len(W4.reg.get(name, ())) <= v:
+            continue
+        d = model_diff(W, W.alpha(W.reg[name][v]), W4.alpha(W4.reg[name][v]))
+        if d:
+            b.idx = idx
+            op = b.log[idx].get('op') if 0 <= idx < len(b.log) else None
+            for prop in charge.get(op, ('C10',)) + ('C04',):
+                b.V(prop, 'depends_on_being_observed', (op, 'value'),
+                    f"{name}@{v} (event {idx}): {d} - the other session ran the same script without observer calls and slice reads")
+            return
 
 
 ODD_NAMES = ['all', 'None', 'water of life', 'a to b', 'mL', 'M', 'V0', 'P0', 'x+y', '(z)', 'well A,1', '%w/v', '10 mL', 'U', "it's", 'a, b',
@@ -284,6 +321,8 @@ def run_replay(record, known=None, fault_exec=None):
         merge_bench(b, b2)
     if record.get('alias'):
         alias_session(rep, record, b, known)
+    if record.get('blind'):
+        blind_session(rep, record, b, known)
     return b
 
 
